@@ -38,6 +38,10 @@ IR_RUNS.update({
                          ("MC", "hier_edit", 10, 400), ("MC", "hier_walk", 16, 1500)]},
     "C07": {"quick": [("MC", "clone", 2), ("MC", "clone_edit", 0)],
             "thorough": [("MC", "clone", 5), ("MC", "clone", 10, 60), ("MC", "clone_edit", 1)]},
+    "C06": {"quick": [("MC", "vlog_read", 2), ("MC", "vlog_read", 10, 14)],
+            "thorough": [("MC", "vlog_read", 3), ("MC", "vlog_read", 12, 300)]},
+    "C04": {"quick": [("MC", "vlog_rt", 2), ("MC", "vlog_rt", 10, 14)],
+            "thorough": [("MC", "vlog_rt", 3), ("MC", "vlog_rt", 12, 300)]},
     "C17": {"quick": [("MC", "edif_names", 0)], "thorough": [("MC", "edif_names", 0)]},
     "C05": {"quick": [("MC", "edif_read", 2), ("MC", "edif_read1", 1), ("MC", "edif_read", 10, 8)],
             "thorough": [("MC", "edif_read", 3), ("MC", "edif_read1", 3), ("MC", "edif_read", 12, 200)]},
@@ -53,6 +57,14 @@ IR_RUNS.update({
             "thorough": [("MC", "hier12", 5), ("MC", "hier12", 14, 1000)]},
 })
 IR_RULE = {
+    "C06": "abstract designs = reachable states of a build scope that follows spydrnet's Verilog conventions (leaf / mid with "
+           "a 2-bit port / top with a 2-bit port, 2- and 3-bit wires; instances with every way of tying their pins to wire "
+           "bits); each is rendered by the independent writer conform/verilog_text.py under a seeded sample of 12 of the 128 "
+           "option combinations (module order, ANSI headers, positional maps, forced concatenations, escaped identifiers, "
+           "comments, `celldefine) and parsed by the real reader; distinct_nontrivial counts distinct (design, options) pairs "
+           "inside the domain (single root module)",
+    "C04": "the netlists the real Verilog reader produced for the C06 inputs are written by the real writer and read "
+           "again; distinct_nontrivial counts distinct (design, options) pairs",
     "C17": "two siblings of every naming scope (libraries, cells, ports, nets, instances) receive every ordered pair of "
            "distinct names from an adversarial pool (case variants, -, _, brackets, slashes, backslash, space, $, &, leading "
            "digit, existing _sdn_N_ suffixes, lengths 254/255/256/257/300 with collisions after truncation); the netlist is "
@@ -175,6 +187,11 @@ def _c13_detail(sig, rec):
 
 
 def _detail(sig, clause, rec, header):
+    if clause.startswith("C06") or clause.startswith("C04"):
+        o = rec.get("call", {}).get("opts") or next((c.get("opts") for c in reversed(header.get("h_all", [])) if c.get("opts")), {})
+        sig["opts_on"] = sorted(k for k, v in (o or {}).items() if v is True or v == "reversed")
+        sig["exception"] = rec.get("exc", "")
+        return sig
     if clause.startswith("C17"):
         hist = header.get("h_all", [])
         names = [c.get("val", "") for c in hist if c.get("op") == "set_name"][-2:]
@@ -308,4 +325,4 @@ def ir_history(pid, tier, seed, replay=None, runs=None, strict=True):
 
 
 HANDLERS = {"C01": ir_history, "C02": ir_history, "C14": ir_history, "C10": ir_history, "C19": ir_history, "C11": ir_history,
-            "C12": ir_history, "C08": ir_history, "C09": ir_history, "C07": ir_history, "C13": ir_history, "C20": ir_history, "C05": ir_history, "C03": ir_history, "C17": ir_history}
+            "C12": ir_history, "C08": ir_history, "C09": ir_history, "C07": ir_history, "C13": ir_history, "C20": ir_history, "C05": ir_history, "C03": ir_history, "C17": ir_history, "C06": ir_history, "C04": ir_history}
